@@ -118,3 +118,37 @@ class gen_connected_component_from:
     exit_lemmas = ["reach_induction(self, c, lambda v: v in final(visited))"]
     result = T.ListT(T.CoordTup)  # callers see a duplicate-free list of the component's cells
     props = ["C13", "C12"]
+
+
+# the bit that encodes the unit lattice edge {a, b}: direction 0 if the rows differ else 1, stored at the lesser endpoint
+_ENC = ("(d == ite(adj_list[k, 0][0] != adj_list[k, 1][0], 0, 1)"
+        " and x == ite(adj_list[k, 0][0] <= adj_list[k, 1][0], adj_list[k, 0][0], adj_list[k, 1][0])"
+        " and y == ite(adj_list[k, 0][1] <= adj_list[k, 1][1], adj_list[k, 0][1], adj_list[k, 1][1]))")
+
+
+@contract(F, "LatticeMaze.from_adj_list")
+class from_adj_list:
+    params = dict(cls=T.Const(None), adj_list=T.GridT("int", [None, 2, 2], min_dim=1))
+    lets = dict(n="adj_list.shape[0]")
+    # every row a unit lattice edge with non-negative coordinates
+    requires = ["forall(lambda k: lat_adj(adj_list[k, 0], adj_list[k, 1]) and adj_list[k, 0][0] >= 0 and adj_list[k, 0][1] >= 0"
+                " and adj_list[k, 1][0] >= 0 and adj_list[k, 1][1] >= 0, (0, n))"]
+    ensures = {
+        "C13.from_adj_list.square": "result.connection_list.shape[0] == 2 and result.connection_list.shape[1] == result.connection_list.shape[2]",
+        "C13.from_adj_list.size": "forall(lambda k, e, c: adj_list[k, e][c] < result.connection_list.shape[1], (0, n), (0, 2), (0, 2))"
+        " and exists(lambda k, e, c: adj_list[k, e][c] + 1 == result.connection_list.shape[1], (0, n), (0, 2), (0, 2))",
+        "C13.from_adj_list.bits": f"forall(lambda d, x, y: result.connection_list[d, x, y] == exists(lambda k: {_ENC}, (0, n)),"
+        " (0, 2), (0, result.connection_list.shape[1]), (0, result.connection_list.shape[2]))",
+    }
+    loops = {
+        0: Loop(
+            head="for c_start, c_end in adj_list",
+            havoc=dict(connection_list=T.GridT("bool", [2, None, None])),
+            inv={
+                "shape": "connection_list.shape == (2, grid_n, grid_n)",
+                "bits": f"forall(lambda d, x, y: connection_list[d, x, y] == exists(lambda k: {_ENC}, (0, _k)), (0, 2), (0, grid_n), (0, grid_n))",
+            },
+        )
+    }
+    result = T.RecT("LatticeMaze", connection_list=T.GridT("bool", [2, None, None]))
+    props = ["C13", "C07"]
